@@ -79,7 +79,8 @@ Qed.
 Lemma compound_le_u64 : forall n q pct, 0 <= q <= u64M -> compound n q pct <= u64M.
 Proof.
   induction n as [|n IH]; intros q pct Hq; cbn [compound]; [lia|].
-  apply IH. unfold next_price, su64 at 1, clampZ, u64M. lia.
+  apply IH. unfold next_price. generalize (q + su64 (q * pct) / 100). intros z.
+  unfold su64, clampZ, u64M. lia.
 Qed.
 
 (* ---- rounding loses at most a relative 2^-52 (floor bound; enough here) ---- *)
